@@ -6,10 +6,12 @@ use num_traits::Zero;
 use yui::poly::Poly;
 use yui::{EucRing, EucRingOps, Ratio, FF, FF2};
 use yui_homology::{ChainComplexTrait, GridTrait, SummandTrait};
-use yui_kh::kh::{ss_invariant, KhChainExt, KhComplex, KhHomology};
+use yui_kh::kh::internal::v2::builder::TngComplexBuilder;
+use yui_kh::kh::{ss_invariant, KhChainExt, KhComplex, KhGen, KhHomology};
 use yui_kh::misc::div_vec;
 use yui_link::{Crossing, CrossingType, Link};
 use yui_matrix::sparse::SpVec;
+use std::collections::HashMap;
 use yv::links::*;
 use yv::*;
 
@@ -65,6 +67,104 @@ fn lee_ranks(s: &mut Sink, name: &str, l: &Link, with_model: bool) {
     for i in kh.support() { let g = kh.get(i); rank += g.rank(); cells.push(((i, None), group_txt(g.rank(), vec![]))); }
     s.oracle(rank == want, "homology with (h,t)=(0,1) over Q has total rank 2^components", &desc, &format!("rank {}", rank));
     if with_model { s.case(&format!("kh Q 0 1 0 0 {}", link_txt(l)), &format!("signs={} {}", signs_txt(l), table_txt(cells)), l.crossing_num() >= 2); }
+}
+
+// ---------------------------------------------------------------------------------------------------------
+// construction of the canonical cycles (Lean: Model/C06Canon): with `auto_deloop = auto_elim = false` the engine
+// performs no elimination, so `canon_cycles()` are chains of honest cube generators (state, labelling).
+
+fn bits_txt(bits: &[bool]) -> String { if bits.is_empty() { "_".into() } else { bits.iter().map(|b| if *b { '1' } else { '0' }).collect() } }
+
+/// `seifert <link>`: `ori_pres_state` and `seifert_circles` (order and edge order as returned)
+fn seifert_case(s: &mut Sink, l: &Link) {
+    let l2 = l.clone();
+    let reply = guard(move || {
+        let st: Vec<bool> = l2.ori_pres_state().iter().map(|b| b.is_one()).collect();
+        let cs = l2.seifert_circles();
+        let body = cs.iter().map(|c| format!("{}{}", if c.is_circle() { "o" } else { "a" }, c.edges().iter().map(|e| e.to_string()).collect::<Vec<_>>().join("-"))).collect::<Vec<_>>().join("|");
+        format!("s={} circles={}", bits_txt(&st), body)
+    }).unwrap_or_else(|| "panic".into());
+    s.case(&format!("seifert {}", link_txt(l)), &reply, l.crossing_num() >= 2);
+    s.count("canon.seifert");
+}
+
+/// `canon <h> <base|-1> <link>`: the cycles of the un-eliminated complex, rendered through least edge labels
+fn canon_construct(s: &mut Sink, name: &str, l: &Link, h: i64, base: Option<usize>) {
+    let desc = format!("{} [{}] h={} base={:?} (no elimination)", link_txt(l), name, h, base);
+    let mut b = TngComplexBuilder::<i64>::new(l, &h, &0, base);
+    b.auto_deloop = false;
+    b.auto_elim = false;
+    b.process_all();
+    // snapshot before delooping: position of every crossing in the state word, circles of every vertex
+    let xs: Vec<_> = b.complex().crossings().to_vec();
+    let data: Vec<_> = l.data().iter().filter(|x| !x.is_resolved()).cloned().collect();
+    let pos: Vec<usize> = data.iter().map(|x| xs.iter().position(|y| y == x).expect("crossing of the link is in the complex")).collect();
+    let state_bits = |st: &yui_link::State| -> Vec<bool> { pos.iter().map(|&p| st[p].is_one()).collect() };
+    let mut snap: HashMap<yui_link::State, Vec<(usize, bool)>> = HashMap::new();
+    for (k, v) in b.complex().iter_verts() {
+        snap.insert(k.state, v.tng().comps().map(|c| (c.min_edge(), base.map(|e| c.contains(e)).unwrap_or(false))).collect());
+    }
+    b.finalize();
+    let c = b.into_kh_complex();
+    let zs = c.canon_cycles().clone();
+    let knot = l.is_knot();
+    let want = if !knot { 0 } else if base.is_some() { 1 } else { 2 };
+    s.oracle(zs.len() == want, "a knot with t=0 has 2 (unreduced) / 1 (reduced) canonical cycles", &desc, &format!("{}", zs.len()));
+    // a generator -> (state bits in the order of l.data(), mask over the circles sorted by least edge; bit set <=> X)
+    let render = |x: &KhGen| -> (String, u64) {
+        let comps = &snap[&x.state];
+        assert_eq!(comps.len(), x.label.len(), "one label per circle");
+        // delooping order: circles not through the base point in the order of the tangle, then the based one
+        let mut order: Vec<usize> = (0..comps.len()).filter(|&i| !comps[i].1).collect();
+        order.extend((0..comps.len()).filter(|&i| comps[i].1));
+        let mut mask = 0u64;
+        for (p, &ci) in order.iter().enumerate() {
+            let rank = comps.iter().filter(|c| c.0 < comps[ci].0).count();
+            if x.label[p].is_X() { mask |= 1 << rank; }
+        }
+        (bits_txt(&state_bits(&x.state)), mask)
+    };
+    let (w, r) = (l.writhe() as isize, l.seifert_circles().len() as isize);
+    let mut ztxt = vec![];
+    for (k, z) in zs.iter().enumerate() {
+        let d = format!("{} cycle#{}", desc, k);
+        s.oracle(z.gens().all(|x| x.h_deg() == 0), "canonical cycles are chains of homological degree 0", &d, &format!("h_deg {}", z.h_deg()));
+        let dz = c.d(0, z);
+        s.oracle(dz.is_zero(), "canonical cycles are cycles: d z = 0", &d, &format!("d z has {} terms", dz.nterms()));
+        let q = z.iter().filter(|(_, a)| !a.is_zero()).map(|(x, _)| x.q_deg()).min();
+        s.oracle(q == Some(w - r + if base.is_some() { 1 } else { 0 }), "the lowest q-degree of a canonical cycle is w - r (+1 reduced), the degree entering ss = 2d + w - r + 1", &d, &format!("{:?} w={} r={}", q, w, r));
+        let mut ts: Vec<(String, u64, i64)> = z.iter().filter(|(_, a)| !a.is_zero()).map(|(x, a)| { let (bs, m) = render(x); (bs, m, *a) }).collect();
+        ts.sort();
+        ztxt.push(if ts.is_empty() { "0".to_string() } else { ts.iter().map(|(bs, m, a)| format!("{}/{}:{}", bs, m, a)).collect::<Vec<_>>().join(",") });
+    }
+    let s0: Vec<bool> = l.ori_pres_state().iter().map(|b| b.is_one()).collect();
+    let mut circ: Vec<usize> = snap.iter().find(|(k, _)| state_bits(k) == s0).map(|(_, v)| v.iter().map(|c| c.0).collect()).unwrap_or_default();
+    circ.sort();
+    let reply = format!("s={} circ={} z={} chk=ok", bits_txt(&s0), circ.iter().map(|e| e.to_string()).collect::<Vec<_>>().join(","),
+        if ztxt.is_empty() { "none".to_string() } else { ztxt.join(";") });
+    s.case(&format!("canon {} {} {}", h, base.map(|e| e as i64).unwrap_or(-1), link_txt(l)), &reply, knot && l.crossing_num() >= 2);
+    s.count(if base.is_some() { "canon.reduced" } else { "canon.unreduced" });
+    s.count(&format!("canon.h.{}", h));
+}
+
+/// the construction stream for one diagram: every h in {0,1,2,3,-1}; `mode` 0: unreduced + reduced at every edge,
+/// 1: unreduced + reduced at `first_edge` + reduced at a random edge, 2: one of these three per h (rotating)
+fn canon_stream(s: &mut Sink, r: &mut Rng, name: &str, l: &Link, mode: u8) {
+    guarded_case(s, name, |s| seifert_case(s, l));
+    if l.is_empty() { return }
+    let mut edges: Vec<usize> = l.edges().into_iter().collect();
+    edges.sort();
+    let first = l.first_edge();
+    let rot = r.below(3) as usize;
+    for (hi, h) in [0i64, 1, 2, 3, -1].into_iter().enumerate() {
+        let mut bases: Vec<Option<usize>> = vec![None, first];
+        if mode == 0 { bases.extend(edges.iter().filter(|e| Some(**e) != first).map(|e| Some(*e))); }
+        else { bases.push(Some(*r.pick(&edges))); }
+        if mode == 2 { bases = vec![bases[(hi + rot) % 3]]; }
+        for base in bases {
+            guarded_case(s, &format!("{} [{}] h={} base={:?}", link_txt(l), name, h, base), |s| canon_construct(s, name, l, h, base));
+        }
+    }
 }
 
 /// switch crossing `i` of a plain PD diagram (X -> Xm with the same edges)
@@ -187,6 +287,36 @@ fn main() {
         if !l.is_knot() { continue }
         guarded_case(&mut s, name, |s| knot_case(s, &mut r, name, l, true));
         s.eval_only(&format!("knot {}", name), true);
+    }
+    // construction of the canonical cycles without elimination, against the Lean construction model
+    {
+        let cmax = if thorough { 8 } else { 7 };
+        let mut ds: Vec<(String, Link)> = vec![("empty".into(), Link::empty()), ("hopf".into(), Link::hopf_link())];
+        for (name, l) in &knots { if l.crossing_num() <= cmax { ds.push((name.clone(), l.clone())); } }
+        let n0 = ds.len();
+        for i in 2..n0 {
+            let (name, l) = ds[i].clone();
+            if l.crossing_num() == 0 { continue }
+            ds.push((format!("{}-mirror", name), l.mirror()));
+            if is_plain_pd(&l) && (thorough || r.chance(1, 2)) {
+                let mut pd = pd_of(&l);
+                match r.below(4) {
+                    0 => { if pd.len() < cmax { if let Some(q) = add_kink(&mut r, &pd) { pd = q; } } }
+                    1 => { pd = renumber(&mut r, &pd); }
+                    2 => { pd = reorder(&mut r, &pd); }
+                    _ => { pd = reverse_all(&pd); }
+                }
+                let m = link_of(&pd);
+                ds.push((format!("{}-moved", name), if r.bool() { m.mirror() } else { m }));
+            }
+        }
+        for (name, l) in &links { if !l.is_knot() && l.crossing_num() <= 6 { guarded_case(&mut s, name, |s| seifert_case(s, l)); } }
+        for (name, l) in &ds {
+            let n = l.crossing_num();
+            let mode = if n <= (if thorough { 5 } else { 3 }) { 0 } else if thorough || n <= 6 { 1 } else { 2 };
+            canon_stream(&mut s, &mut r, name, l, mode);
+            s.eval_only(&format!("canonical cycle construction {}", name), l.crossing_num() >= 2);
+        }
     }
     // larger non-alternating knots over rings with units that are not self-inverse (Q, Q[H], F3[H]); the engine's
     // elimination order follows randomly seeded hash maps, so every configuration is built several times
